@@ -138,3 +138,50 @@ Proof.
   - destruct Hk as [->| ->]; exact Hfb.
   - rewrite (status_no_tgid _ Hpre). destruct Hk as [->| ->]; exact Hfb.
 Qed.
+
+(* ---- the Name: record cannot influence the Tgid probe, whatever the process / thread is called *)
+Lemma k_escape_no_nl comm : contains 10 (k_escape comm) = false.
+Proof.
+  induction comm as [|c r IH]; [reflexivity|]. cbn [k_escape].
+  destruct (c =? 10) eqn:E1; [rewrite !contains_cons; cbn; exact IH|].
+  destruct (c =? 92) eqn:E2; [rewrite !contains_cons; cbn; exact IH|].
+  rewrite contains_cons. rewrite Z.eqb_sym, E1. exact IH.
+Qed.
+
+Lemma name_body_wf comm : wf_preline (k_name_body comm) = true.
+Proof.
+  unfold wf_preline, k_name_body. rewrite contains_app, contains_cons, k_escape_no_nl. reflexivity.
+Qed.
+
+(* the scan is over '\n'-separated records only: a Name record, whatever bytes the name has, is skipped *)
+Theorem status_name_independent comm rest :
+  status_tgid (k_name_line comm ++ rest) = status_tgid rest.
+Proof.
+  unfold status_tgid, k_name_line. rewrite <- app_assoc. cbn [app].
+  assert (Hnl : contains 10 (k_name_body comm) = false).
+  { pose proof (name_body_wf comm) as H. unfold wf_preline in H. apply andb_true_iff in H as [H _]. now apply negb_true_iff in H. }
+  rewrite (lines_keep_line _ _ Hnl). cbn [tgid_scan].
+  assert (Hp : prefixb (bs "Tgid:") (k_name_body comm ++ [10]) = false) by reflexivity.
+  now rewrite Hp.
+Qed.
+
+Theorem pid_exists_name_independent pid k comm rest names :
+  pid_exists_linux pid k (Some (k_name_line comm ++ rest)) names = pid_exists_linux pid k (Some rest) names.
+Proof. unfold pid_exists_linux. now rewrite status_name_independent. Qed.
+
+(* the whole file as the kernel prints it, for every comm: Name first, then any records not starting with
+   "Tgid:", then the Tgid record *)
+Theorem pid_exists_any_name pid k comm pre tgid post names :
+  forallb wf_preline pre = true -> is_dec tgid = true ->
+  pid_exists_linux pid k
+    (Some (k_status {| ks_pre := k_name_body comm :: pre; ks_tgid := tgid; ks_post := post |})) names =
+  Val (match k with KOk | KEperm => dec_val tgid =? pid | _ => false end).
+Proof.
+  intros Hpre Ht. apply pid_exists_linux_exact. unfold wf_kstatus. cbn [ks_pre ks_tgid forallb].
+  now rewrite name_body_wf, Hpre, Ht.
+Qed.
+
+Example hostile_name_ex :
+  k_name_line (bs "x" ++ 13 :: bs "Tgid:" ++ 9 :: bs "1" ++ 10 :: bs "a\b") =
+  bs "Name:" ++ 9 :: bs "x" ++ 13 :: bs "Tgid:" ++ 9 :: bs "1\na\\b" ++ [10].
+Proof. reflexivity. Qed.
